@@ -134,9 +134,14 @@ def patched_tree(patch, meta, tmp, pre_patches=()):
     bases = [('HEAD', None)]
     old = (meta.get('verified_by_me') or {}).get('base_commit')
     if old:
+        # newest first: the latest commit the patch still applies to contains the most repairs
+        r = subprocess.run(['git', '-C', REPO, 'rev-list', '--first-parent', 'HEAD', '^' + old],
+                           capture_output=True, text=True)
+        between = [c for c in r.stdout.split()][1:] if r.returncode == 0 else []
+        bases += [(c[:7], c) for c in between]
         bases.append((old[:7], old))
     if old and meta.get('needs_base'):
-        bases = bases[1:]      # breaking only on the code it was written against (see meta)
+        bases = bases[-1:]      # breaking only on the code it was written against (see meta)
     msg = ''
     for label, commit in bases:
         repo = os.path.join(tmp, 'repo_' + label)
@@ -164,12 +169,20 @@ def inherited_reports(base_label, pid=None):
         data = json.load(open(os.path.join(VERIF, 'known_findings.json')))
     except (OSError, ValueError):
         return set()
-    got = {(f['rule'], f['key']) for f in data.get('fixed_rules', [])
-           if pid is None or f.get('property') == pid}
+    def inherited(f):
+        # a defect is inherited only by a base that does not contain its repair
+        c = f.get('commit')
+        if not c:
+            return True
+        r = subprocess.run(['git', '-C', REPO, 'merge-base', '--is-ancestor', c, base_label],
+                           capture_output=True)
+        return r.returncode != 0
+    rules = [f for f in data.get('fixed_rules', []) if inherited(f)]
+    got = {(f['rule'], f['key']) for f in rules if pid is None or f.get('property') == pid}
     if pid in (None, 'C04'):
         # C04-D7 takes over verdicts of the C05 exchange analysis, keyed by the C05 construct
         got |= {('C04-D7-faults-are-recorded', 'via:%s:%s' % (f['rule'], f['key']))
-                for f in data.get('fixed_rules', []) if f.get('property') == 'C05'}
+                for f in rules if f.get('property') == 'C05'}
     return got
 
 
